@@ -674,7 +674,7 @@ fn fixed_cases() -> Vec<Case> {
 pub fn worker(args: &[String]) -> i32 {
     // args: kind seed first stride end | c15one json
     if args[0] == "c15one" {
-        let case: Case = match serde_json::from_str(&args[1]) {
+        let case: Case = match serde_json::from_str(&hostile::one_arg(&args[1])) {
             Ok(c) => c,
             Err(_) => return 2,
         };
@@ -718,7 +718,7 @@ fn signature(case: &Case, msg: &str) -> String {
 
 /// does this case still fail (in a child process)?
 fn fails(case: &Case) -> Option<String> {
-    match hostile::run_one("c15", &serde_json::to_string(case).unwrap()) {
+    match hostile::run_one_confirmed("c15", &serde_json::to_string(case).unwrap()) {
         Ok(r) if r.ok => None,
         Ok(r) => Some(r.msg),
         Err(how) => Some(how),
@@ -871,7 +871,7 @@ fn scale_base(f: usize, tier: crate::core::Tier) -> usize {
 fn check_scaling(f: usize, n: usize) -> Result<(u64, u64, u64, u64), String> {
     let one = |n: usize| -> Result<(u64, u64), String> {
         let case = Case { decoder: 0, input_hex: String::new(), origin: format!("scale:{f}:{n}") };
-        let r = hostile::run_one("c15", &serde_json::to_string(&case).unwrap()).map_err(|how| if how.starts_with(hostile::STALL) { how } else { format!("{} at n = {n}: the process died ({how})", SCALE_FAMILIES[f]) })?;
+        let r = hostile::run_one_confirmed("c15", &serde_json::to_string(&case).unwrap()).map_err(|how| if how.starts_with(hostile::STALL) { how } else { format!("{} at n = {n}: the process died ({how})", SCALE_FAMILIES[f]) })?;
         if !r.ok {
             return Err(format!("{} at n = {n}: {}", SCALE_FAMILIES[f], r.msg));
         }
